@@ -15,7 +15,8 @@ LEVEL_TEXT = ("Coq theorems (abstract *-field + DFT character; every N, NFFT >= 
               "normal equations with its exact zero tests + the 'wierd behaviour' assertion: equivariant under the diagonal unitary congruence of the Gram matrix; "
               "modcovar is reversal invariant because forward and backward Gram blocks swap), arma.ma (aryule twice), arma.arma_estimate (C15's model: AR / MA "
               "coefficient j times phi(j+1), same variance and exception, for covariance-method oracles equivariant on the system they are handed -- proved for "
-              "the executable solver, every phase offset; conjugation in the ordered *-field), and the composed class spectra of pyule, pburg, "
+              "the executable solver of Model/Ls.v, every phase offset, and for the elimination oracles of C15's correspondence run when no pivot vanishes, so "
+              "the instance tied to the code needs no oracle hypothesis; conjugation in the ordered *-field), and the composed class spectra of pyule, pburg, "
               "pcovar, pmodcovar, pma, pminvar and the parma / pma objects of C15's class model (stored PSD rolled / mirrored).  Class level over the pipeline table GENERATED from the source on this run: every class except pmusic/pev stores a scalar multiple "
               "of the estimator's array, so roll / mirror commute with the store and scale() calls; the AR/MA/ARMA, minvar and multitaper classes store for "
               "real data 2 x the first onesided_len(NFFT) bins of the complex store (NFFT even and odd, any reachable state).  Real data: CORRELATION, LEVINSON, "
